@@ -50,6 +50,8 @@ def configs(tier):
             if tier != "quick" or uni == "none":
                 out.append({"classes": cs, "uni": uni, "falsy": falsy, "sought": "none"})
     out.append({"classes": ["DE", "DE", "DE"], "uni": "none", "falsy": 2, "symbreak": True, "sought": "box"})
+    # one vertex of a class that defines __eq__ only (unhashable): whatever traversal lists it, its search finds it
+    out.append({"classes": ["DE", "UE"], "uni": "none", "falsy": None, "sought": "box", "unhash": 1})
     # four vertices: a way back to the start plus matches in two different branches (s - a, s -> b, a -> c)
     out.append({"classes": ["UE", "DE", "DE"], "uni": "none", "falsy": None, "symbreak": True, "sought": "box", "nverts": 4})
     if tier != "quick":
@@ -110,6 +112,8 @@ def scenario(B, p):
     vcls = ["Vertex"] * nv
     if p["falsy"] is not None:
         vcls[p["falsy"]] = "FalsyVertex"
+    if p.get("unhash") is not None:
+        vcls[p["unhash"]] = "UnhashVertex"
     verts = make_vertices(B, nv, vcls)
     links = make_links(B, p["classes"])
     n = len(links)
